@@ -1,6 +1,7 @@
 package sio
 
 import (
+	"errors"
 	"math"
 	"time"
 
@@ -20,6 +21,8 @@ const (
 	clientConnStateReconnecting
 	clientConnStateDisconnected
 )
+
+var errManagerClosed = errors.New("sio: manager was closed while it was connecting")
 
 func (m *Manager) connected() bool {
 	m.stateMu.RLock()
@@ -92,6 +95,20 @@ func (m *Manager) connect(recursed bool) (err error) {
 		m.stateMu.Unlock()
 		m.errorHandlers.forEach(func(handler *ManagerErrorFunc) { (*handler)(err) }, true)
 		return err
+	}
+
+	// `Close` might have been called while the connection was being established.
+	// It could not close this connection (it did not exist yet), so it is closed here.
+	m.skipReconnectMu.RLock()
+	closed := m.skipReconnect
+	m.skipReconnectMu.RUnlock()
+	if closed {
+		activeMu.Lock()
+		active = false
+		activeMu.Unlock()
+		go _eio.Close()
+		m.resetParser()
+		return errManagerClosed
 	}
 
 	m.stateMu.Lock()
